@@ -283,6 +283,17 @@ func c13Random(rr *prng.R, r *fw.Rec) {
 			tree = &jast.Path{Steps: []jast.Node{srt(srt(&jast.Var{Name: ""})), id}}
 		}
 		modelCheck(r, tree, items, "order-by-on-context-array", judge.Opts{EmptyIsUndef: true}, nil)
+	case kind < 5 && nterms > 1 && rr.Intn(4) == 0:
+		// an order-by applied to the result of another: the outer keys decide,
+		// items that are equal under them stay in the order the inner one gave
+		inner := sortProgram([]sortTerm{{names[nterms-1], rr.Pick("", "<", ">")}}).(*jast.Sort)
+		outer := sortProgram(terms[:nterms-1]).(*jast.Sort)
+		outer.X = inner
+		var tree jast.Node = outer
+		if rr.Bool() {
+			tree = &jast.Path{Steps: []jast.Node{outer, &jast.Name{V: "id"}}}
+		}
+		modelCheck(r, tree, doc, "order-by-chained", judge.Opts{EmptyIsUndef: true}, nil)
 	case kind < 5:
 		c13Run(r, sortProgram(terms), doc, terms, items, "order-by")
 	case kind == 5:
